@@ -42,13 +42,21 @@ Example c33_ex_prereq : prereq_ok M_commit DEACTIVE = false /\ prereq_ok M_rollb
   prereq_ok M_rollback CLOSED = false /\ prereq_ok M_begin DEACTIVE = false.
 Proof. vm_compute. repeat split. Qed.
 
-(* ---- session_agrees_with_db_after_each_boundary: REFUTED for the unrestricted alphabet: five
-   histories (one per defect of the implementation), each ending in a successful commit/rollback after
-   which [agrees] is false; each leaves the guard of the guarded theorem *)
-Theorem c33_session_agrees_with_db_after_each_boundary_refuted : forall ps, In ps witnesses ->
-  is_boundary (last ps OFlush) = true /\ fst (final true ps) = Ok /\ agrees (snd (final true ps)) = false /\
-  first_unguarded (sess0 true) ps 0 <> None.
+(* ---- session_agrees_with_db_after_each_boundary: REFUTED for the unrestricted alphabet: three
+   histories (expire_on_commit, operations), one per remaining defect of the implementation, each ending
+   in a successful commit/rollback after which [agrees] is false; each leaves the guard of the guarded
+   theorem *)
+Theorem c33_session_agrees_with_db_after_each_boundary_refuted : forall w, In w witnesses ->
+  is_boundary (last (snd w) OFlush) = true /\ fst (final (fst w) (snd w)) = Ok /\
+  agrees (snd (final (fst w) (snd w))) = false /\
+  first_unguarded (sess0 (fst w)) (snd w) 0 <> None.
 Proof. exact agreement_refuted. Qed.
+
+(* the witnesses of the three repaired defects (key-switch merge f8f802f, stale _deleted flag 0c90c34,
+   close() and deleted objects 9732dc8) are guarded histories now and end in agreement *)
+Example c33_ex_repaired_witnesses_agree : forall ps, In ps repaired ->
+  fst (final true ps) = Ok /\ agrees (snd (final true ps)) = true /\ first_unguarded (sess0 true) ps 0 = None.
+Proof. exact repaired_agree. Qed.
 Print Assumptions c33_session_agrees_with_db_after_each_boundary_refuted.
 
 (* ---- session_agrees_with_db_after_each_boundary, GUARDED: for EVERY history whose operations pass
